@@ -23,7 +23,8 @@ def sh(cmd, cwd=None, env=None, timeout=None):
 def check(prop, repo, out):
     env = dict(ENV, VERIF_REPO=repo, VERIF_OUT=os.path.join(out, prop))
     os.makedirs(env["VERIF_OUT"], exist_ok=True)
-    r = sh("/verif/run.sh %s quick" % prop, env=env, timeout=1500)
+    env["VERIF_DIR"] = "/verif"
+    r = sh("%s -prop %s -tier quick" % (BIN, prop), env=env, timeout=1500)
     rules = sorted(set(re.findall(r"^(?:VIOLATED|UNDECIDED) (\S+)", r.stdout, re.M)))
     if "CHECKER-ERROR" in r.stdout:
         rules.append("checker-error")
@@ -73,7 +74,7 @@ def one(sid):
                 "go test -run '^%s$' .   on the clean copy: expected pass" % name,
                 "patch -p1 < patch.diff && go build ./... && go test ./...   (existing suite): expected pass",
                 "go test -run '^%s$' .   with the change: expected fail" % name,
-                "VERIF_REPO=$T/repo ./run.sh Cxx quick   for all 19 properties",
+                "VERIF_REPO=$T/repo bin/memecheck -prop Cxx -tier quick   for all 19 properties (the binary run.sh builds)",
             ],
             detected=bool(det.get(prop)),
             detected_by=det,
@@ -87,7 +88,23 @@ def one(sid):
         shutil.rmtree(t, ignore_errors=True)
 
 
+BIN = "/verif/bin/memecheck"
+
+
 def main():
+    # a frozen copy of the checker: the sources may be edited (and rebuilt by run.sh) while the matrix runs
+    global BIN
+    sh("/verif/run.sh C19 quick")
+    snap = tempfile.mkdtemp(prefix="seedbin.", dir=os.environ.get("TMPDIR", "/tmp"))
+    shutil.copy("/verif/bin/memecheck", os.path.join(snap, "memecheck"))
+    BIN = os.path.join(snap, "memecheck")
+    try:
+        run()
+    finally:
+        shutil.rmtree(snap, ignore_errors=True)
+
+
+def run():
     ids = sys.argv[1:] or sorted(x for x in os.listdir(SEEDED) if os.path.isdir(os.path.join(SEEDED, x)))
     with cf.ThreadPoolExecutor(max_workers=2) as ex:
         for sid, meta in ex.map(one, ids):
